@@ -17,6 +17,9 @@ def main():
     except Exception:
         pass
     args = sys.argv[2:]
+    import faulthandler
+    import signal as _sig
+    faulthandler.register(_sig.SIGUSR1, all_threads=True)  # the pool asks for a stack dump before killing a hung worker
     out = os.fdopen(os.dup(1), "w", buffering=1)
     os.dup2(2, 1)  # stray prints go to stderr
     from vt import core
